@@ -504,6 +504,9 @@ def ite(c, a, b):
     """if-then-else that does not fork."""
     if not isinstance(c, Sym):
         return a if c else b
+    if (isinstance(a, float) and math.isinf(a)) or (isinstance(b, float) and math.isinf(b)):
+        # extended reals are not z3 terms: decide the condition (fork) and keep +-inf as a Python float
+        return a if decide(zbool(c)) else b
     if not isinstance(a, Sym) and not isinstance(b, Sym) and _is_boollike(a) and _is_boollike(b):
         return lower(z3.If(c.z, z3.BoolVal(bool(a)), z3.BoolVal(bool(b))))
     za, zb = zval(a), zval(b)
